@@ -68,6 +68,7 @@ class Lane(LaneBase):
             oracle = self.oracle(g, results)
         else:
             tags.add('out-of-domain')
+            oracle = tsgen.coherence_failures(g)
         nontrivial = dom and len(g.get_edges()) > 0 and any((b or 0) >= 1 or (f or 0) >= 1 for b, f, _ in case['combos'])
         return {'lines': lines, 'impl': out, 'oracle': oracle, 'nontrivial': nontrivial,
                 'key': tsgen.digest(tok, idx, repr(case['combos'])), 'tags': sorted(tags)}
